@@ -210,7 +210,7 @@ func (b *assignmentBuilder) structFieldAndStructGettersAndFields(lhs bmodel.Node
 		return true
 	}
 
-	if opts.Getter {
+	if opts.Getter && opts.Rule == gmodel.MatchRuleName {
 		bmodel.IterateStructMethods(rhsStruct, handler)
 		if a != nil || err != nil {
 			return a, err
